@@ -185,6 +185,7 @@ deriving Repr
 
 structure Sess where
   exch : Bool
+  early : Bool                  -- the server's `process()` releases its input itself (`input.release()`), before emitting
   initErr : Option Exn          -- the method failed at init: the server answered with an error stream and drains the input
   carry : List WItem            -- written by the server, not yet read by the client
   rest : List Step
@@ -203,7 +204,7 @@ def Conn.init (A : Allocator) : Conn A := ⟨⟨A.init, fun _ => none, 0⟩, [],
 inductive Op where
   /-- unary call; `req = some b`: the request batch is offered to the segment by the client (C++-style client) -/
   | call (logs : List Log) (out : Except Exn Nat) (req : Option Batch)
-  | openS (exch : Bool) (init : Option Exn) (initLogs : List Log) (steps : List Step)
+  | openS (exch early : Bool) (init : Option Exn) (initLogs : List Log) (steps : List Step)
   | tick
   /-- exchange input; `coerce = some e`: `_coerce_input_batch` raises `e` for this batch -/
   | send (inp : Batch) (coerce : Option Exn)
@@ -277,15 +278,19 @@ def serverStep {A : Allocator} (cfg : Cfg) (w : World A) (s : Sess) (hIn : Optio
       let w2 := if Gen.C29.finalReleasedBeforeEos then w1.free s.prevIn else w1
       ⟨[.inl (.err e)], w2, none, true, s.rest⟩
   | none =>
-      let w1 := if Gen.C29.prevReleasedBeforeProcess then w.free s.prevIn else w
+      let w0 := if Gen.C29.prevReleasedBeforeProcess then w.free s.prevIn else w
+      -- user code may release its input early; the framework's own later release of the same batch is then a no-op
+      -- (when the release closure is idempotent)
+      let w1 := if s.early then w0.free hIn else w0
+      let hIn := if s.early && Gen.C29.releaseIdempotent then none else hIn
       let fin := fun (x : World A) => if Gen.C29.finalReleasedBeforeEos then x.free hIn else x
-      match s.rest with
-      | [] => ⟨[], fin w1, none, true, []⟩                        -- `process()` past the script finishes
-      | st :: r =>
-          match stepOut s.exch st with
-          | .cont items => let q := putItems cfg w1 items; ⟨q.1, q.2, hIn, false, r⟩
-          | .done items => let q := putItems cfg w1 items; ⟨q.1, fin q.2, none, true, r⟩
-          | .fail items => ⟨items.map .inl, fin w1, none, true, r⟩
+      -- `process()` past the end of the script calls `finish()`
+      let st : Step := match s.rest with | [] => ⟨[], .finish, []⟩ | st :: _ => st
+      let r := s.rest.tail
+      match stepOut s.exch st with
+      | .cont items => let q := putItems cfg w1 items; ⟨q.1, q.2, hIn, false, r⟩
+      | .done items => let q := putItems cfg w1 items; ⟨q.1, fin q.2, none, true, r⟩
+      | .fail items => ⟨items.map .inl, fin w1, none, true, r⟩
 
 /-- the client closes its side: input EOS; a server still in its loop leaves it and releases the last input; the rest of
 the output is drained -/
@@ -365,9 +370,9 @@ def releaseOp {A : Allocator} (c : Conn A) (k : Nat) : Conn A :=
 an open while a stream is open; stream operations without a stream) are ignored: they never reach the wire. -/
 def step {A : Allocator} (cfg : Cfg) (c : Conn A) : Op → OpOut × Conn A
   | .call logs out req => if sessionOpen c.sess then (⟨[], []⟩, c) else callOp cfg c logs out req
-  | .openS exch init il steps =>
+  | .openS exch early init il steps =>
       if sessionOpen c.sess then (⟨[], []⟩, c)
-      else (⟨[], []⟩, { c with sess := some ⟨exch, init, (match init with | some _ => [] | none => inlLogs il), steps,
+      else (⟨[], []⟩, { c with sess := some ⟨exch, early, init, (match init with | some _ => [] | none => inlLogs il), steps,
                                               init.isSome, false, none⟩ })
   | .tick => match c.sess with
       | some s => sendOp cfg c s none none
